@@ -80,6 +80,7 @@ def tyOf : Nat → Val → Option Ty
       let t ← tyOf fuel t
       pure (.dict k t)
     | .cons (.sym "ch") (.cons t .nil) => (tyOf fuel t).map .chain
+    | .sym "hl" => some .highload
     | .cons (.sym "ee") (.cons (.sym id) .nil) => some (.encErr id)
     | .cons (.sym "o") (.cons (.sym id) .nil) => some (.opaque id)
     | _ => none
